@@ -71,9 +71,28 @@ func main() {
 	outTLA := flag.String("tla", "", "output TLA+ module path")
 	outJSON := flag.String("json", "", "output JSON path")
 	module := flag.String("module", "LocksOps", "TLA+ module name")
+	overlay := flag.String("overlay", "", "JSON file {absolute source path: replacement file}: analyse the tree with these files replaced")
 	flag.Parse()
 
 	cfg := &packages.Config{Mode: packages.LoadAllSyntax, Dir: *repo, Env: os.Environ()}
+	if *overlay != "" {
+		raw, err := os.ReadFile(*overlay)
+		if err != nil {
+			log.Fatal(err)
+		}
+		m := map[string]string{}
+		if err := json.Unmarshal(raw, &m); err != nil {
+			log.Fatal(err)
+		}
+		cfg.Overlay = map[string][]byte{}
+		for k, v := range m {
+			b, err := os.ReadFile(v)
+			if err != nil {
+				log.Fatal(err)
+			}
+			cfg.Overlay[k] = b
+		}
+	}
 	pats := []string{".", "./internal/api", "./internal/ircserver", "./internal/outputstream", "./internal/raftstore"}
 	pkgs, err := packages.Load(cfg, pats...)
 	if err != nil {
